@@ -194,6 +194,32 @@ pub fn run(ctx: &Ctx) -> Rep {
     rep.merge(r6);
 
     let s7 = par_subsets::<7, X, _, _>(ctx, unit_stride, mk, |st, c, _| {
+        // the 6,864 single-suit hands in all 5,040 slot orders: the seven-card value in every order against the
+        // minimum of the seven six-card values (taken once, in canonical order)
+        if drive::max_suit_count(c) == 7 && !ctx.smoke() {
+            let w = words_of(c);
+            let mut minv = u16::MAX;
+            for drop in 0..7 {
+                let s: Vec<u32> = (0..7).filter(|&i| i != drop).map(|i| w[i]).collect();
+                minv = minv.min(Six::from([s[0], s[1], s[2], s[3], s[4], s[5]]).hand_rank_value());
+            }
+            for k in 0..drive::factorial(7) {
+                let p = drive::nth_permutation(7, k);
+                let a = [c[p[0] as usize], c[p[1] as usize], c[p[2] as usize], c[p[3] as usize], c[p[4] as usize], c[p[5] as usize], c[p[6] as usize]];
+                let v7 = Seven::from(words_of(&a)).hand_rank_value();
+                st.rep.evaluations += 1;
+                if v7 != minv {
+                    st.rep.violation(
+                        "seven-card value == smallest of its seven six-card values",
+                        "Seven::hand_rank_value vs Six::hand_rank_value",
+                        Input::Idx(a.to_vec()),
+                        format!("min v6 = {}", minv),
+                        format!("v7 = {}", v7),
+                    );
+                }
+            }
+            st.rep.add("single_suit_hands_in_every_slot_order", 1);
+        }
         // every hand with six or more suited cards (274,560 hands, where straight-flush shortcuts live) in 8 seeded
         // slot orders, whatever the sampling below decides
         if drive::max_suit_count(c) >= 6 && !ctx.smoke() {
